@@ -210,6 +210,10 @@ func (x *g) prim() string {
 		return spec.String
 	case 3, 4:
 		return spec.Int
+	case 5:
+		if x.o.Profile == "validation" {
+			return spec.Bytes // length bounds on bytes are documented as a pattern over the base64 text
+		}
 	}
 	if x.o.Profile == "grpc" {
 		// proto3 has no "any"
@@ -634,7 +638,17 @@ func (x *g) genVal(kind string, t *spec.Type) *spec.Val {
 			v.ExclMax = fp(lo + float64(x.r.Range(2, 50)))
 			x.s.AddFeature("val-range", "val-exclusive")
 		}
-	case kind == spec.Array || kind == spec.Map || kind == spec.Bytes:
+	case kind == spec.Bytes:
+		// short bounds: the documented base64 pattern has a case of its own for every length mod 3 near the bound
+		lo := x.r.Range(0, 1)
+		if x.chance(1, 2) {
+			v.MinLen = ip(lo)
+		}
+		if x.chance(5, 6) {
+			v.MaxLen = ip(lo + x.r.Range(0, 2))
+		}
+		x.s.AddFeature("val-length-" + kind)
+	case kind == spec.Array || kind == spec.Map:
 		lo := x.r.Range(0, 2)
 		if x.chance(2, 3) {
 			v.MinLen = ip(lo)
